@@ -1,6 +1,7 @@
 """Generic per-property check: translator -> proofs -> engines -> in-Coq correspondence ->
 direct property oracle -> known findings -> evidence -> verdict."""
 import collections
+import concurrent.futures
 import glob
 import importlib
 import json
@@ -77,13 +78,13 @@ def run_property(spec, tier, seed):
     # 2. proofs
     hits = core.forbidden_scan()
     targets = spec["coq_targets"]
+    t_mk0 = time.time()
     mk_ok, mk_log, mk_dt = core.coq_make(targets)
     proof_info = {"make_ok": mk_ok, "make_secs": round(mk_dt, 1), "forbidden_hits": hits}
     props = {"ok": False, "theorems": [], "discharged": 0, "closed": 0, "axioms": [], "log": "", "file": None}
     if mk_ok:
         props = {"ok": True, "theorems": [], "discharged": 0, "closed": 0, "axioms": [], "log": "", "file": None}
-        for pf in spec["props_files"]:
-            r = core.check_props(pf)
+        for pf, r in zip(spec["props_files"], core.check_props_many(spec["props_files"])):
             props["theorems"] += r["theorems"]
             props["discharged"] += r["discharged"]
             props["closed"] += r["closed"]
@@ -114,6 +115,7 @@ def run_property(spec, tier, seed):
     if hits:
         proof_broken = proof_broken or {"site": {"file": hits[0], "line": 0, "statement": "forbidden vernacular"}, "log": "\n".join(hits)}
 
+    t_props = time.time()
     # 3. engines + correspondence
     total_cases, nontrivial_keys, all_keys = 0, set(), set()
     distribution = collections.Counter()
@@ -121,11 +123,35 @@ def run_property(spec, tier, seed):
     fails = []
     corr_info = []
     engine_cmds = []
-    for eng in spec.get("engines", []):
+    def process_engine(eng):
+        """run one engine and evaluate its cases inside Coq; engines are independent, so several
+        run at the same time (go builds and coqc shards overlap)"""
         res = core.run_engine(prop, eng, seed, tier, {"VERIF_PROP": prop})
+        cases = [r for r in res["records"] if r.get("t") == "case"]
+        out = {"eng": eng, "res": res, "cases": cases, "coq": None}
+        if eng.get("corr") and mk_ok:
+            coqcases = [c for c in cases if c.get("coq") and not c.get("nocorr")]
+            bad, err, cdt = core.coq_eval_cases(prop, eng["name"], eng["corr"], eng["case_type"], eng.get("check", "check"),
+                                                [c["coq"] for c in coqcases], shard=eng.get("shard", 400), imports=eng.get("imports", ()))
+            out["coq"] = (coqcases, bad, err, cdt)
+        return out
+
+    engs = spec.get("engines", [])
+    serial = [e for e in engs if e.get("exclusive")]          # timing-sensitive engines may ask to run alone
+    parallel = [e for e in engs if not e.get("exclusive")]
+    results = []
+    if parallel:
+        with concurrent.futures.ThreadPoolExecutor(max_workers=min(4, len(parallel))) as ex:
+            results += list(ex.map(process_engine, parallel))
+    for e in serial:
+        results.append(process_engine(e))
+    order = {id(e): i for i, e in enumerate(engs)}
+    results.sort(key=lambda r: order[id(r["eng"])])
+
+    for r0 in results:
+        eng, res, cases = r0["eng"], r0["res"], r0["cases"]
         engine_cmds.append(res["cmd"])
         recs = res["records"]
-        cases = [r for r in recs if r.get("t") == "case"]
         efails = [r for r in recs if r.get("t") == "fail" and str(r.get("key", "")).startswith(prop + ":")]
         for r in recs:
             if r.get("t") == "stat":
@@ -146,10 +172,8 @@ def run_property(spec, tier, seed):
             distribution[c.get("cls", "?")] += 1
         for c in cases[:: max(1, len(cases) // 6)][:6]:
             samples.append({"engine": eng["name"], "class": c.get("cls"), "case": c["coq"][:600], "detail": c.get("sample")})
-        if eng.get("corr") and mk_ok:
-            coqcases = [c for c in cases if c.get("coq") and not c.get("nocorr")]
-            bad, err, cdt = core.coq_eval_cases(prop, eng["name"], eng["corr"], eng["case_type"], eng.get("check", "check"),
-                                                [c["coq"] for c in coqcases], shard=eng.get("shard", 400), imports=eng.get("imports", ()))
+        if r0["coq"] is not None:
+            coqcases, bad, err, cdt = r0["coq"]
             corr_info.append({"engine": eng["name"], "cases": len(coqcases), "mismatches": len(bad), "secs": round(cdt, 1), "error": (err or "")[:600] or None})
             if err:
                 violations.append({"kind": "correspondence", "key": "%s:corr-%s-eval-failed" % (prop, eng["name"]), "detail": err[-2000:], "found_input": False})
@@ -160,6 +184,7 @@ def run_property(spec, tier, seed):
                                    "cases": [{"coq": c["coq"][:2000], "class": c.get("cls"), "sample": c.get("sample")} for c in ex],
                                    "found_input": False})
 
+    t_eng = time.time()
     # 4. direct oracle failures -> known findings or violations
     seen_known = {}
     oracle_violation_inputs = []
@@ -191,6 +216,7 @@ def run_property(spec, tier, seed):
         "print_assumptions": {"closed_under_global_context": props["closed"], "axioms": props["axioms"]},
         "forbidden_vernacular_hits": hits,
         "coqchk": chk,
+        "phase_secs": {"translator_and_make": round(t_props - t0, 1) if False else round(mk_dt, 1), "proofs": round(t_props - t_mk0 - mk_dt, 1), "engines_and_correspondence": round(t_eng - t_props, 1)},
         "evaluations": total_cases,
         "distinct_nontrivial": len(nontrivial_keys),
         "distinct": len(all_keys),
